@@ -366,7 +366,7 @@ func (e *Engine) abstractPolicy(fr *Frame, callee *ssa.Function) string {
 		// text conversion and parsing: loops over digits, irrelevant to the modelled state
 		switch callee.Name() {
 		case "String", "AppendTo", "MarshalText", "MarshalBinary", "appendTo4", "appendTo6", "string4", "string6", "StringExpanded",
-			"ParseAddr", "MustParseAddr", "ParsePrefix", "MustParsePrefix", "ParseAddrPort", "MustParseAddrPort", "parseIPv4", "parseIPv6":
+			"ParseAddr", "MustParseAddr", "ParsePrefix", "MustParsePrefix", "ParseAddrPort", "MustParseAddrPort", "parseIPv4", "parseIPv6", "Zone", "WithZone":
 			return fmt.Sprintf("%s.%s abstracted (text conversion: assumed total, arbitrary result)", to, fnName2(callee))
 		}
 		return ""
